@@ -29,6 +29,10 @@ type Reply struct {
 	NoCL     bool   `json:"no_cl,omitempty"`    // omit Content-Length (close-delimited)
 	Chunked  bool   `json:"chunked,omitempty"`
 	Trailer  Hdr    `json:"trailer,omitempty"` // trailer section of a chunked reply
+	// NilHdr: the upstream hands over a response whose Header map is nil (a RoundTripper other than net/http's
+	// own transports may: nothing requires the map to be allocated, and http.Client works on such a response).
+	// Only with an empty Hdr and a close-delimited body: "no header fields at all".
+	NilHdr bool `json:"nil_hdr,omitempty"`
 }
 
 type Fault struct {
